@@ -269,7 +269,8 @@ Definition sel_timeout (tvo : option tv) : Z :=
   match tvo with
   | None => (-1)%Z
   | Some (sec, usec) =>
-    if (C_INT_MAX / Z.of_N sel_clamp_div <=? Z.of_N sec)%Z then C_INT_MAX
+    if (C_INT_MAX / Z.of_N sel_clamp_div <=? Z.of_N sec)%Z
+    then (C_INT_MAX / Z.of_N sel_clamp_val_div * Z.of_N sel_clamp_val_mul)%Z
     else Z.of_N (sec * sel_ms_per_sec + (usec + sel_round_add) / sel_us_per_ms)%N
   end.
 
